@@ -106,6 +106,19 @@ Section Machine.
     map snd (filter (fun e => fst e =? tid) tr).
   Definition untag (tr : list (nat * O)) : list O := map snd tr.
 
+  (* how often a thread is scheduled *)
+  Fixpoint occ (t : nat) (sched : list nat) : nat :=
+    match sched with
+    | [] => 0
+    | s :: rest => (if s =? t then 1 else 0) + occ t rest
+    end.
+
+  (* own steps a thread still needs to complete its current operation when no other thread's
+     update intervenes: Load, CAS from the start; one CAS when its loaded pointer is current;
+     failing CAS, Load, CAS when it is stale *)
+  Definition need (cell : nat * V) (th : thread) : nat :=
+    if t_pc th =? 0 then 2 else if fst cell =? fst (t_reg th) then 1 else 3.
+
   Definition all_returned (st : mstate) : bool :=
     forallb (fun th => match t_ops th with [] => true | _ => false end) (m_threads st).
 End Machine.
